@@ -163,6 +163,8 @@ class World:
             return None  # ordinary null in a nullable position
         if t[0] == "L":
             n = (h >> 3) % 5
+            if (h >> 9) % 12 == 0:
+                n = 9 + (h >> 14) % 4  # now and then a longer list
             items = [
                 self.gen(t[1], (idseed, i), path + (i,)) for i in range(n)
             ]
